@@ -684,10 +684,14 @@ def main():
     for i, sk in enumerate(req["skeletons"]):
         for dt in req.get("dtypes", ["float32"]):
             jobs.append((sk, dt, bool(i % 2)))
-    # warm-up before forking
-    run_skeleton({"arch": ["Linear", "Other", "Linear"], "prog": [{"a": "Quantize", "wq": "qint4", "aq": "qint8", "filter": "all"},
+    # warm-up before forking (whatever it raises is reported by the isolated histories below)
+    _warm = ({"arch": ["Linear", "Other", "Linear"], "prog": [{"a": "Quantize", "wq": "qint4", "aq": "qint8", "filter": "all"},
                                                                   {"a": "EnterCalib", "momentum": "m50", "streamline": False}, {"a": "CalibBatch", "batch": "b1"},
                                                                   {"a": "ExitCalib"}, {"a": "Freeze"}, {"a": "Forward", "x": "x1"}]}, "float32", False)
+    try:
+        run_skeleton(*_warm)
+    except Exception:  # noqa: BLE001
+        pass
     import multiprocessing as mp
     with mp.get_context("fork").Pool(req.get("procs", 12)) as pool:
         traces = pool.map(_job, jobs, chunksize=4)
